@@ -25,6 +25,25 @@ use tera_verif_harness::{catch, driver, quiet_panics, Env};
 
 const BLOCKS: [&str; 3] = ["x", "y", "z"];
 
+/// what `{{ hv }}` prints: a string with HTML-special characters
+const HOSTILE: &str = "<i>&";
+
+/// the context of every render
+fn ctx() -> Context {
+    let mut c = Context::new();
+    c.insert("hv", &HOSTILE);
+    c
+}
+
+/// is a template of this name auto-escaped (default suffixes)?
+fn autoescaped(name: &str) -> bool {
+    [".html", ".htm", ".xml"].iter().any(|s| name.ends_with(s))
+}
+
+fn escape_html(s: &str) -> String {
+    s.replace('&', "&amp;").replace('<', "&lt;").replace('>', "&gt;")
+}
+
 #[derive(Clone, Debug, serde::Serialize, serde::Deserialize)]
 struct Case {
     /// chain, root first: tpls[i] extends tpls[i-1]
@@ -137,6 +156,10 @@ fn part_size(len: usize, nb: usize) -> u64 {
 fn shape(len: usize, nb: usize, configs: &[Vec<(u8, usize)>], mut idx: u64, seed: u64) -> Vec<TplS> {
     let names = ["base.html", "mid", "leaf.html", "l4", "l5"];
     let salt = idx;
+    // a third of the shapes write HTML-special characters (literal text and escaped data) in their
+    // blocks; those shapes have no filter sections (what a filter section does to literal text in
+    // an auto-escaped template is another property's business)
+    let special_shape = mix(seed, salt, 999) % 3 == 0;
     let mut tpls = Vec::new();
     for lvl in 0..len {
         let cfg = &configs[(idx % configs.len() as u64) as usize];
@@ -156,11 +179,12 @@ fn shape(len: usize, nb: usize, configs: &[Vec<(u8, usize)>], mut idx: u64, seed
                 calls_super: st == 2,
                 nested_in: (par != usize::MAX).then(|| BLOCKS[par].to_string()),
                 includes: vec![],
-                in_filter: mix(seed, salt, (lvl * 8 + b) as u64) % 3 == 0,
+                in_filter: !special_shape && mix(seed, salt, (lvl * 8 + b) as u64) % 3 == 0,
                 super_twice: st == 2 && mix(seed, salt, (100 + lvl * 8 + b) as u64) % 4 == 0,
                 call_before_super: st == 2 && mix(seed, salt, (200 + lvl * 8 + b) as u64) % 4 == 1,
                 // an EMPTY definition (no instruction at all), only where nothing is nested in it
                 empty: st == 1 && !(0..nb).any(|c| cfg[c].0 > 0 && cfg[c].1 == b) && mix(seed, salt, (300 + lvl * 8 + b) as u64) % 4 == 2,
+                special: special_shape && mix(seed, salt, (400 + lvl * 8 + b) as u64) % 2 == 0,
             });
         }
         tpls.push(t);
@@ -217,6 +241,12 @@ impl<'a> Ref<'a> {
             return Ok(String::new());
         }
         let mut s = format!("[{}@{}{}:", b, mark(&owner.name), mark(&owner.tag));
+        if d.special {
+            // literal text is never escaped; data is escaped once, by the flag of the template that
+            // is being rendered (`view`), wherever the block was written
+            s.push_str("<&>");
+            s.push_str(&if autoescaped(view) { escape_html(HOSTILE) } else { HOSTILE.to_string() });
+        }
         let mut again = String::new();
         if d.calls_super {
             if d.call_before_super {
@@ -240,6 +270,17 @@ impl<'a> Ref<'a> {
         }
         s.push_str(&again);
         s.push(']');
+        Ok(s)
+    }
+    /// what `{% include "t" %}` writes: `t`'s OWN main chunk, its blocks resolved in `t`'s own chain
+    fn render_own(&mut self, t: &str) -> Result<String, RefErr> {
+        let me = self.get(t);
+        let mut s = format!("{{{}{}:", mark(&me.name), mark(&me.tag));
+        for b in me.blocks.iter().filter(|b| b.nested_in.is_none()) {
+            let inner = self.block(t, &b.name, 1)?;
+            s.push_str(&if b.in_filter { inner.to_uppercase() } else { inner });
+        }
+        s.push('}');
         Ok(s)
     }
     /// full render of `view`: the root ancestor's body
@@ -382,7 +423,7 @@ fn run_shape(tpls: &[TplS], orders: &[Vec<usize>]) -> Outcome {
             o.render_results.push("skip".into());
             continue;
         }
-        let got = class_of(&catch(std::panic::AssertUnwindSafe(|| tera.render(&t.name, &Context::new()))));
+        let got = class_of(&catch(std::panic::AssertUnwindSafe(|| tera.render(&t.name, &ctx()))));
         o.render_results.push(got.replacen(':', " ", 1));
         o.renders += 1;
         let want_s = match &want {
@@ -399,7 +440,7 @@ fn run_shape(tpls: &[TplS], orders: &[Vec<usize>]) -> Outcome {
         // render_block of every block name
         let in_lineage: BTreeSet<&str> = BLOCKS.iter().copied().filter(|b| lineage_ref(tpls, &t.name, b).is_some()).collect();
         for b in BLOCKS {
-            let got = class_of(&catch(std::panic::AssertUnwindSafe(|| tera.render_block(&t.name, b, &Context::new()))));
+            let got = class_of(&catch(std::panic::AssertUnwindSafe(|| tera.render_block(&t.name, b, &ctx()))));
             o.block_renders += 1;
             if got.starts_with("panic") {
                 o.failure = Some(format!("render_block(`{}`, `{b}`) panicked: {got}", t.name));
@@ -408,7 +449,7 @@ fn run_shape(tpls: &[TplS], orders: &[Vec<usize>]) -> Outcome {
             // the writer variant must answer the same (text, or the same kind of error)
             let got_to = class_of(&catch(std::panic::AssertUnwindSafe(|| {
                 let mut buf: Vec<u8> = Vec::new();
-                tera.render_block_to(&t.name, b, &Context::new(), &mut buf).map(|()| String::from_utf8_lossy(&buf).to_string())
+                tera.render_block_to(&t.name, b, &ctx(), &mut buf).map(|()| String::from_utf8_lossy(&buf).to_string())
             })));
             if got_to != got {
                 o.failure = Some(format!("render_block_to(`{}`, `{b}`) gives `{got_to}` but render_block gives `{got}`", t.name));
@@ -456,7 +497,7 @@ fn run_shape(tpls: &[TplS], orders: &[Vec<usize>]) -> Outcome {
             if r.depth_exceeded {
                 continue;
             }
-            let got = class_of(&catch(std::panic::AssertUnwindSafe(|| tera.render(&t.name, &Context::new()))));
+            let got = class_of(&catch(std::panic::AssertUnwindSafe(|| tera.render(&t.name, &ctx()))));
             *renders += 1;
             let want_s = match &want {
                 Ok(s) => format!("ok:{s}"),
@@ -538,6 +579,78 @@ fn run_shape(tpls: &[TplS], orders: &[Vec<usize>]) -> Outcome {
             }
         }
     }
+    // the chain seen from outside: a template `user.html` that has blocks of its own (one with the
+    // same name as a block of the chain, one unknown to the chain) INCLUDES the root, resp. the
+    // most derived template: the included template's blocks are its own (looked up in ITS chain)
+    if !o.call_cycle {
+        // (the most derived template always, the root for half of the longer chains)
+        let mut targets = vec![tpls[tpls.len() - 1].name.clone()];
+        if tpls.len() >= 2 && tpls.iter().map(|t| t.source().len()).sum::<usize>() % 2 == 0 {
+            targets.push(tpls[0].name.clone());
+        }
+        for target in targets {
+            let mut user = TplS::new("user.html");
+            user.top_includes.push(target.clone());
+            user.blocks.push(BlockS { name: "x".into(), ..Default::default() });
+            user.blocks.push(BlockS { name: "w".into(), ..Default::default() });
+            let mut set = tpls.to_vec();
+            set.push(user.clone());
+            let (imp2, t2) = register(&set, &(0..set.len()).collect::<Vec<_>>());
+            let Some(t2) = t2 else {
+                o.failure = Some(format!("the accepted chain plus a template including `{target}` is answered `{imp2}`"));
+                return o;
+            };
+            let mut r = Ref { tpls: &set, written: BTreeMap::new(), depth_exceeded: false };
+            let inner = r.render_own(&target);
+            if r.depth_exceeded {
+                continue;
+            }
+            let want_s = match inner {
+                Ok(inner) => format!("ok:{{user_html:{inner}[x@user_html:][w@user_html:]}}"),
+                Err(_) => "err:rendering".to_string(),
+            };
+            let got = class_of(&catch(std::panic::AssertUnwindSafe(|| t2.render("user.html", &ctx()))));
+            o.renders += 1;
+            if got != want_s {
+                o.failure = Some(format!("`user.html` (own blocks `x`, `w`) includes `{target}`: engine `{got}`, reference (the included template renders its own body with its own blocks) `{want_s}`"));
+                return o;
+            }
+        }
+    }
+    // the same chain loaded from FILES, descendants listed first (for a deterministic quarter of the
+    // shapes): add_template_files must answer as add_raw_templates does
+    if tpls.len() >= 2 && tpls.iter().map(|t| t.source().len()).sum::<usize>() % 4 == 0 {
+        let r = catch(std::panic::AssertUnwindSafe(|| {
+            let dir = std::env::temp_dir().join(format!("tera_verif_c04_{}", std::process::id()));
+            let _ = std::fs::create_dir_all(&dir);
+            let files: Vec<(std::path::PathBuf, Option<String>)> = tpls
+                .iter()
+                .rev()
+                .enumerate()
+                .map(|(i, t)| {
+                    let path = dir.join(format!("t{i}.tpl"));
+                    std::fs::write(&path, t.source()).expect("write template file");
+                    (path, Some(t.name.clone()))
+                })
+                .collect();
+            let mut tera = engine(&[]);
+            let ans = match tera.add_template_files(files.clone()) {
+                Ok(()) => format!("ok {}", real_derived(&tera).canon()),
+                Err(e) => canon_err(&e),
+            };
+            for (p, _) in &files {
+                let _ = std::fs::remove_file(p);
+            }
+            let _ = std::fs::remove_dir(&dir);
+            ans
+        }));
+        let ans = r.unwrap_or_else(|p| format!("panic {p}"));
+        let same = if ans.starts_with("ok") || o.imp.starts_with("ok") { ans == o.imp } else { err_class(&ans) == err_class(&o.imp) };
+        if !same {
+            o.failure = Some(format!("the chain loaded from files with add_template_files, most derived template listed first, is answered `{}` but add_raw_templates answers `{}`", ans.chars().take(160).collect::<String>(), o.imp.chars().take(160).collect::<String>()));
+            return o;
+        }
+    }
     // an application function registered under the very name `super`: inside a block `super()` still
     // means the parent block
     if !o.call_cycle && tpls.iter().any(|t| t.blocks.iter().any(|b| b.calls_super)) {
@@ -554,7 +667,7 @@ fn run_shape(tpls: &[TplS], orders: &[Vec<usize>]) -> Outcome {
                     if r.depth_exceeded {
                         continue;
                     }
-                    let got = class_of(&catch(std::panic::AssertUnwindSafe(|| t2.render(&t.name, &Context::new()))));
+                    let got = class_of(&catch(std::panic::AssertUnwindSafe(|| t2.render(&t.name, &ctx()))));
                     o.renders += 1;
                     let want_s = match &want {
                         Ok(s) => format!("ok:{s}"),
@@ -604,7 +717,7 @@ fn run_shape(tpls: &[TplS], orders: &[Vec<usize>]) -> Outcome {
                     if r.depth_exceeded {
                         continue;
                     }
-                    let got = class_of(&catch(std::panic::AssertUnwindSafe(|| t2.render(&t.name, &Context::new()))));
+                    let got = class_of(&catch(std::panic::AssertUnwindSafe(|| t2.render(&t.name, &ctx()))));
                     o.renders += 1;
                     let want_s = match &want {
                         Ok(s) => format!("ok:{s}"),
@@ -804,6 +917,11 @@ fn shrink(mut tpls: Vec<TplS>, fails: &dyn Fn(&[TplS]) -> bool) -> Vec<TplS> {
                     d[i].blocks[bi].empty = false;
                     cands.push(d);
                 }
+                if tpls[i].blocks[bi].special {
+                    let mut d = tpls.clone();
+                    d[i].blocks[bi].special = false;
+                    cands.push(d);
+                }
                 if tpls[i].blocks[bi].in_filter {
                     let mut d = tpls.clone();
                     d[i].blocks[bi].in_filter = false;
@@ -872,7 +990,7 @@ fn main() {
             let tera = tera.unwrap();
             for t in &c.tpls {
                 let mut r = Ref { tpls: &c.tpls, written: BTreeMap::new(), depth_exceeded: false };
-                println!("render {:?}: engine {:?} reference {:?}", t.name, tera.render(&t.name, &Context::new()).map_err(|e| canon_err(&e)), r.render(&t.name));
+                println!("render {:?}: engine {:?} reference {:?}", t.name, tera.render(&t.name, &ctx()).map_err(|e| canon_err(&e)), r.render(&t.name));
             }
         }
         return;
@@ -983,7 +1101,7 @@ fn main() {
     }
     for (i, tpls) in shapes.iter().enumerate() {
         // the render skeleton of the model writes one super() per block
-        let twice = tpls.iter().any(|t| t.blocks.iter().any(|b| b.super_twice || b.call_before_super || b.empty));
+        let twice = tpls.iter().any(|t| t.blocks.iter().any(|b| b.super_twice || b.call_before_super || b.empty || b.special));
         if rows[i].renders.len() == tpls.len() && !twice {
             let w = set_wire(&[], tpls);
             for (k, t) in tpls.iter().enumerate() {
@@ -1029,6 +1147,9 @@ fn main() {
         }
         if tpls.iter().any(|t| t.blocks.iter().any(|b| b.empty)) {
             report.count("shape.empty-block-body");
+        }
+        if tpls.iter().any(|t| t.blocks.iter().any(|b| b.special)) {
+            report.count("shape.html-special-characters-in-blocks");
         }
         if !r.failure.is_empty() {
             fails.push(i);
